@@ -62,6 +62,12 @@ func VfC03Unseal() {
 			opened := len(vf.Opens) > nOpen && vf.Opens[len(vf.Opens)-1].OK
 			notTried := len(vf.Opens) == nOpen
 			vf.Assert(!((opened || notTried) && state.VfSeqAccepts(w0, seq, cls == MessageClassPriorityEncrypted)), "frame-within-the-replay-window-refused")
+			// bytes that did not authenticate never move a receive window (else a forged or late frame
+			// could push the window - or, near the wrap, the key epoch - away from the sender's)
+			if !opened {
+				vf.Assert(sB.VfEnc().VfSeqSnap() == w0, "replay-window-moved-by-unauthenticated-frame")
+				vf.Reach("unauthenticated-frame-left-window-alone")
+			}
 		}
 		vf.Reach("rejected")
 		return
